@@ -302,10 +302,10 @@ EXTRA = {
     "C03": "(SIMPLEX-EQUIV, BRIDGE-EQUIV shared with C04/C05) verdict and optimum of the crate's simplex path equal the exact answer on the small-program family. (REWRITE-SEM, shared with C10) Exp::simplify / flatten, evaluated from their HIR, preserve the value of every enumerated arithmetic and logic tree (constant operands on either side included). (EXPAND-EQUIV, constant group, shared with C06) ten programs whose constants are defined by arithmetic (quotients of whole numbers, in a `let`, a domain bound, an index expression, an iteration) compile to the model of the text with the numbers written out. (COMPILE-EQUIV, refusals, shared with C01) none of the ~300 well-formed models over bounded domains is refused by the compile step with anything but the missing-bounds / non-binary-operand errors.",
     "C04": "(BRIDGE-EQUIV) both MicroLP bridges evaluated against a recording stand-in for the MicroLP API on 12 models: one column per variable in order with its kind, declared bounds and objective coefficient (also when the domain map is ordered differently from the variable list), rows, direction, each variable reported with its own column's value in its kind, objective plus constant, row activities. (GOODLP-BRIDGE-EQUIV) the same for the good_lp / Clarabel bridge. (SIMPLEX-EQUIV) the point the slow simplex returns names every variable once, lies in every declared range, satisfies every row and reproduces the reported value, on 42 (thorough 186) programs. (SIMPLEX-EQUIV addition) variables of the model whose names start with `$` come back with a value. (SIMPLEX-EQUIV addition) half-bounded ranges whose finite end is the binding one at the optimum: the returned point lies in the declared range.",
     "C05": "(SIMPLEX-EQUIV) solve_real_lp_problem_slow_simplex evaluated from typed HIR with IEEE doubles on 42 (thorough 186) programs of 1-7 variables -- bounded / free / half-bounded ranges, two-phase starts, redundant and degenerate rows, narrow infeasibility next to large right-hand sides, unbounded rays, ratio ties at small and large magnitude, tiny pivot-column entries, Beale's and Chvatal's cycling examples: the verdict is the exact one (Fourier-Motzkin over the rationals) and the optimum agrees to 1e-6; during development the evaluated path gave bit-identical values to the compiled crate on all programs. (BRIDGE-EQUIV / GOODLP-BRIDGE-EQUIV) solver errors and statuses map to the same verdicts. (SIMPLEX-EQUIV addition) programs with as many own columns as rows but not one per row (an = / >= / negative <= row without a column of its own). Infeasible programs with a variable that occurs in no row and improves the objective without limit (infeasible, not unbounded); two-phase starts whose first phase meets a structural row with the smallest ratio before an artificial one; thorough: 400 pseudo-random small equality systems (fixed seed). (GOODLP-BRIDGE-EQUIV addition) at Clarabel's (Almost)DualInfeasible the solution vector is a certificate, not a point: the scripted one violates rows and ranges and the verdict stays Unbounded. (SIMPLEX-EQUIV addition) phase one ending with an artificial variable basic at level zero in a later row whose leaving column occurs in an earlier row.",
-    "C07": "(BOUNDS-SOUND additions) tiny coefficients on very wide variables; the published domain is held to exact containment of feasible end points in the inexact-arithmetic family. (BOUNDS-SOUND addition) eleven rows of four to six variables (every relation, mixed signs, integer ranges, a second row), sound on the corner/middle grid of the box. T-IVL-SEM / BOUNDS-SOUND: min and max of three and four operands with the deciding operand in the middle, over three variables of different ranges (forward enclosure, reverse rules, published domains).",
+    "C07": "(BOUNDS-SOUND additions) tiny coefficients on very wide variables; the published domain is held to exact containment of feasible end points in the inexact-arithmetic family. (BOUNDS-SOUND addition) eleven rows of four to six variables (every relation, mixed signs, integer ranges, a second row), sound on the corner/middle grid of the box. T-IVL-SEM / BOUNDS-SOUND: min and max of three and four operands with the deciding operand in the middle, over three variables of different ranges (forward enclosure, reverse rules, published domains). (BOUNDS-SOUND addition) quotients and products by a constant below and above a piecewise form (max(x/4,y), abs(x)/4, min(x/-3,y), abs(3x-y), max(x,y)/0.5): the reverse rules undo them.",
     "C08": "(WELL-FORMED-SRC) 22 source programs compiled by the emulated front end and compile step: repeated and generated-looking row names stay distinct with the first use kept, cancelling / multiplying infinities are refused or leave finite numbers only, missing-bounds errors name exactly the variables without two finite ends, every used variable is a sorted, duplicate-free column. (WELL-FORMED-SRC addition, collisions) for every auxiliary name the lowering generates on five base programs (exact abs / max / min, logic value, logic assertion), the program is compiled again with a user declaration of that very name as IntegerRange(3, 7), once used in a row and once never used: it is refused, or the name keeps the user's domain. Contents: a variable that occurs only under a zero factor (`0 * y`, `0y`, a zero entry of a cost table, `y * 0`, `y - y`) is still a column of the model.",
     "C09": "(CONVERT-EXP addition) a binary minus glued to its operands (`2(y)-3`, `7-2`, `x-1`) is the binary minus. (CONVERT-EXP additions) implicit products with negated parenthesised factors (`(-2)(-3)`, `(-x)(-y)`, `12 / (-2)(-3)`, ...); for the documented forms a tree other than the written one is accepted when it has the same value on every probe assignment. (G-BOUNDARY addition) every rule below exp_leaf that matches only words (the boolean literal) is atomic with the identifier boundary; (CONVERT-EXP addition) names that start with a keyword or a literal word (truex, falsey, notx, andy, orz, xory, iffy, minx, inx) are names.",
-    "C10": "(REWRITE-HAZARD addition) divisions by zero / by a variable hidden in abs, min, max under a zero factor, a zero numerator or a self-difference must survive simplify and flatten. (REWRITE-SEM addition) abs / min / max over operands with signed constant factors (-2x, x*-2, (0-2)x, x/-2, c - x, c(x+y)) and scaled abs / min / max: about 480 more trees.",
+    "C10": "(REWRITE-HAZARD addition) divisions by zero / by a variable hidden in abs, min, max under a zero factor, a zero numerator or a self-difference must survive simplify and flatten. (REWRITE-SEM addition) abs / min / max over operands with signed constant factors (-2x, x*-2, (0-2)x, x/-2, c - x, c(x+y)) and scaled abs / min / max: about 480 more trees. (COMPILE-EQUIV spelling addition) a negative constant written on either side of max / min / abs, as a factor, a divisor or a negation, in the convenient and in the exact direction: same domain and feasible set as the plain spelling.",
     "C12": "(RECOMPILE-EQUIV) 91 (thorough 667) programs: the printed linear model is accepted by grammar, converters, type checker and transformer and compiles to the very same text again, incl. names that collide with index fragments. (LINEAR-ROUND-TRIP addition) magnitudes up to 1e30. Known findings: empty `s.t.` section, non-idempotent bound propagation, zero-coefficient variable dropped on recompilation. (LINEAR-ROUND-TRIP addition) models assembled through the public API (usage marks all zero). (LINEAR-ROUND-TRIP addition) domains that differ by less than 1e-5 at both ends are different domains.",
     "C13": "(SIMPLEX-EQUIV shared) the standard form is exercised end to end by the simplex family. (STD-EQUIV addition) range ends that differ from 0 or from each other by less than the crate's comparison tolerance (4e-6, [1, 1.000004]) are bounds all the same: their rows are there.",
     "C14": "(SIMPLEX-EQUIV) see C05; all clauses above recognise source text of the pivot / ratio test / canonical start and are undecided when it is written differently. Two-phase starts whose first phase meets a structural row with the smallest ratio before an artificial one. Phase one ending with an artificial variable basic at level zero in a later row whose leaving column occurs in an earlier row.",
